@@ -64,6 +64,17 @@ func vpH_C05_refcount() {
 	if nRel > 0 {
 		ps.myRelays[vpT0] = nRel
 	}
+	// interest in ANOTHER topic must not matter for this one
+	otherSub, otherRelay := vpBool("subscribed_to_another_topic"), vpBool("relaying_another_topic")
+	if otherSub {
+		ps.mySubs["t1"] = map[*Subscription]struct{}{{topic: "t1", ch: make(chan *Message, 1), ctx: ps.ctx}: {}}
+	}
+	if otherRelay {
+		ps.myRelays["t1"] = 1
+	}
+	if otherSub || otherRelay {
+		nd.gs.mesh["t1"] = map[peer.ID]struct{}{}
+	}
 	announced0 := (nSubs > 0 && !fanoutOnly) || nRel > 0
 	if announced0 {
 		nd.gs.mesh[vpT0] = map[peer.ID]struct{}{}
@@ -119,11 +130,23 @@ func vpH_C05_refcount() {
 	vpAssert(len(ps.mySubs[vpT0]) == subs2 && ps.myRelays[vpT0] == rel2, "reference counts are exact")
 	// the hello packet sent on a new stream lists exactly the announced topics
 	hello := ps.getHelloPacket()
-	if announced1 {
-		vpAssert(len(hello.Subscriptions) == 1 && hello.Subscriptions[0].GetTopicid() == vpT0 && hello.Subscriptions[0].GetSubscribe(), "the hello packet announces exactly the topics the node is interested in")
-	} else {
-		vpAssert(len(hello.Subscriptions) == 0, "the hello packet announces nothing for topics without interest (fanout-only subscriptions included)")
+	h0, h1 := 0, 0
+	for _, so := range hello.Subscriptions {
+		if so.GetSubscribe() && so.GetTopicid() == vpT0 {
+			h0++
+		}
+		if so.GetSubscribe() && so.GetTopicid() == "t1" {
+			h1++
+		}
 	}
+	w0, w1 := 0, 0
+	if announced1 {
+		w0 = 1
+	}
+	if otherSub || otherRelay {
+		w1 = 1
+	}
+	vpAssert(h0 == w0 && h1 == w1 && len(hello.Subscriptions) == w0+w1, "the hello packet announces exactly the topics the node is interested in, once each (fanout-only subscriptions excluded)")
 	vpCover(announced0 && !announced1, "withdrawn")
 	vpCover(!announced0 && announced1 && rel2 > 0, "first relay announces")
 	vpCover(fanoutOnly && subs2 > 0, "fanout-only subscription")
